@@ -1203,7 +1203,7 @@ def register(I):
         panics = []
         for op in it.ops:
             kind = op[0]
-            if kind in ("map", "filter_map"):
+            if kind in ("map", "filter_map", "flat_map"):
                 nxt_paths = []
                 for cur, items in paths:
                     partial = [(cur, [])]
@@ -1216,6 +1216,15 @@ def register(I):
                                     panics.append((s1, r))
                                 elif kind == "map":
                                     step.append((s1, out + [r]))
+                                elif kind == "flat_map":
+                                    # the closure's result is iterated: Ok(x) / Some(x) yield x, Err / None nothing, collections their items
+                                    if isinstance(r, Union):
+                                        for g_, a_ in r.alts:
+                                            if not I.feasible(s1.pc, g_):
+                                                continue
+                                            step.append((s1.fork(g_), out + flat_items(I, a_, s1)))
+                                    else:
+                                        step.append((s1, out + flat_items(I, r, s1)))
                                 else:
                                     if isinstance(r, Union):
                                         raise Unsupported("symbolic filter_map result")
@@ -1266,6 +1275,16 @@ def register(I):
             else:
                 raise Unsupported("iterator adaptor " + kind)
         return paths, panics
+
+    def flat_items(I, r, st):
+        r = deref_all(I, r, st)
+        if isinstance(r, Adt) and r.ty in ("Result", "Option"):
+            return [r.fields[0]] if r.variant in ("Ok", "Some") else []
+        if isinstance(r, VecV):
+            return list(r.items)
+        if isinstance(r, IterV):
+            return list(drive(I, r, st))
+        raise Unsupported("flat_map over %r" % (r,))
 
     def drive_paths(I, it, st, unordered_ok=False):
         """single-path variant: (st', items, panics); st' is None when every path panicked"""
@@ -1540,6 +1559,116 @@ def register(I):
     def it_map(I, st, args, info):
         it = args[0]
         return type(it)(it.items, it.ops + (("map", args[1]),))
+
+    @reg("Iterator::flat_map")
+    def it_flat_map(I, st, args, info):
+        it = args[0]
+        return IterV(it.items, it.ops + (("flat_map", args[1]),))
+
+    @reg("Iterator::flatten")
+    def it_flatten(I, st, args, info):
+        out = []
+        for x in drive(I, args[0], st):
+            for g_, a_ in alts_of(x):
+                if g_ is not True:
+                    raise Unsupported("flatten of a symbolic element")
+                out.extend(flat_items(I, a_, st))
+        return IterV(out)
+
+    # Peekable: the iterator itself (items are already evaluated once driven); peek does not consume
+    @reg("ExactSizeIterator::len")
+    def it_exact_len(I, st, args, info):
+        return len(drive(I, deref_all(I, args[0], st), st))
+
+    @reg("Iterator::peekable")
+    def it_peekable(I, st, args, info):
+        return IterV(drive(I, args[0], st))
+
+    @reg("Peekable::peek", "Peekable::peek_mut")
+    def peekable_peek(I, st, args, info):
+        r = args[0]
+        it = I.read_ref(r, st) if isinstance(r, Ref) else deref(r)
+        items = drive(I, it, st)
+        if isinstance(r, Ref):
+            I.write_cell(r.key, r.path, IterV(items), st)
+        return opt_some(ValRef(items[0])) if items else OPT_NONE
+
+    @reg("Peekable::next_if")
+    def peekable_next_if(I, st, args, info):
+        r = args[0]
+        it = I.read_ref(r, st)
+        items = drive(I, it, st)
+        if not items:
+            return OPT_NONE
+        outs = []
+        for s1, v in I.call_value(args[1], [ValRef(items[0])], st):
+            if isinstance(v, Panic):
+                outs.append((s1, v))
+                continue
+            for val, g in ((True, v), (False, b_not(v))):
+                if g is False or (g is not True and not I.feasible(s1.pc, g)):
+                    continue
+                s2 = s1 if g is True else s1.fork(g)
+                I.write_cell(r.key, r.path, IterV(items[1:] if val else items), s2)
+                outs.append((s2, opt_some(items[0]) if val else OPT_NONE))
+        return outs
+
+    @reg("Vec::dedup_by", "Vec::dedup", "Vec::dedup_by_key")
+    def vec_dedup_by(I, st, args, info):
+        """removes an element when same_bucket(&mut element, &mut last kept) holds; a symbolic verdict forks"""
+        r = args[0]
+        cur = I.read_ref(r, st)
+        if isinstance(cur, Union):
+            outs = []
+            for g_, a_ in cur.alts:
+                if not I.feasible(st.pc, g_):
+                    continue
+                s_ = st.fork(g_)
+                I.write_cell(r.key, r.path, a_, s_)
+                res_ = vec_dedup_by(I, s_, args, info)
+                outs.extend(res_ if isinstance(res_, list) else [(s_, ())])
+            return outs
+        if not isinstance(cur, VecV):
+            raise Unsupported("dedup on %r" % (cur,))
+        which = info.path.last()
+        items = list(cur.items)
+        if not items:
+            return ()
+        paths = [(st, [items[0]])]
+        for x in items[1:]:
+            nxt = []
+            for s0, kept in paths:
+                if which == "dedup":
+                    verdicts = [(s0, I.values_equal(x, kept[-1], s0) if hasattr(I, "values_equal") else None)]
+                    if verdicts[0][1] is None:
+                        raise Unsupported("Vec::dedup (PartialEq of elements)")
+                elif which == "dedup_by_key":
+                    raise Unsupported("Vec::dedup_by_key")
+                else:
+                    verdicts = I.call_value(args[1], [ValRef(x), ValRef(kept[-1])], s0)
+                for s1, v in verdicts:
+                    if isinstance(v, Panic):
+                        nxt.append((s1, v))
+                        continue
+                    if isinstance(v, (Union, Adt)):
+                        raise Unsupported("non-boolean verdict in dedup_by")
+                    for val, g in ((True, v), (False, b_not(v))):
+                        g = b_simpl(g) if is_sym(g) else g
+                        if g is False or (g is not True and not I.feasible(s1.pc, g)):
+                            continue
+                        s2 = s1 if g is True else s1.fork(g)
+                        nxt.append((s2, kept if val else kept + [x]))
+            done = [(s_, k_) for s_, k_ in nxt if isinstance(k_, Panic)]
+            paths = [(s_, k_) for s_, k_ in nxt if not isinstance(k_, Panic)]
+            if done:
+                raise Unsupported("panic inside dedup_by closure")
+            if len(paths) > 6000:
+                raise Unsupported("too many paths inside an iterator adaptor")
+        outs = []
+        for s_, kept in paths:
+            I.write_cell(r.key, r.path, VecV(kept), s_)
+            outs.append((s_, ()))
+        return outs
 
     @reg("Iterator::enumerate")
     def it_enum(I, st, args, info):
